@@ -106,6 +106,9 @@ def do_case(case):
     inf.add_run(other)
     r['other'] = summary(other)
     r['merged'] = summary(inf)
+    # the reported distribution was READ before the merge: after it, it must be the one of the parameters now reported
+    r['merged_dist_N0'] = float(inf.dist_inferred.demography.get_epoch(0).pop_sizes['pop_0'])
+    r['merged_params_N0'] = float(inf.params_inferred['N0'])
     r['before_merge'] = before
     nb = len(inf.bootstraps)
     inf.add_bootstrap(other)
